@@ -15,6 +15,7 @@ type Which struct {
 	Bounds    bool
 	ReuseAs   bool
 	R3        bool
+	Shadow    bool
 	// Siblings lists directories whose Weighted/unweighted type pairs are compared
 	Siblings []string
 	// SiblingState: the same pairs, compared on their receiver-state updates only (TWIN.sibstate)
@@ -36,6 +37,7 @@ func Run(w Which) *core.Result {
 		"TWIN.sync: reuseAsNonZeroed and reuseAsZeroed differ only by use/useZeroed and the trailing Zero()",
 		"TWIN.sibling: in graph/iterator every type and its Weighted sibling have methods that are images of each other under the Weighted renaming",
 		"TWIN.sibstate: in graph/iterator every method and the corresponding method of the Weighted sibling type make the same assignments to the receiver's fields (cursor, length, current element) up to the Weighted renaming",
+		"TWIN.shadow: mat.checkOverlapComplex is the image of mat.checkOverlap under blas64->cblas128, offset->offsetComplex",
 		"TWIN.r3: the safe and unsafe 3x3 builders store the same expression to each element")
 	if w.Generated {
 		runGenerated(res, w.Prefixes)
@@ -48,6 +50,9 @@ func Run(w Which) *core.Result {
 	}
 	if w.R3 {
 		runR3(res)
+	}
+	if w.Shadow {
+		runShadow(res)
 	}
 	for _, d := range w.Siblings {
 		runWeightedSiblings(res, d, false)
